@@ -3,6 +3,7 @@ pub mod c01;
 pub mod c03;
 pub mod parsing;
 pub mod c07;
+pub mod c09;
 pub mod c11;
 pub mod c13;
 pub mod c18;
@@ -19,6 +20,7 @@ pub fn all() -> Vec<Box<dyn Monitor>> {
         Box::new(manip::Manip(manip::Which::C05)),
         Box::new(manip::Manip(manip::Which::C06)),
         Box::new(c07::C07),
+        Box::new(c09::C09),
         Box::new(c11::C11),
         Box::new(c13::C13),
         Box::new(parsing::Parsing(parsing::PW::C17)),
